@@ -20,17 +20,23 @@ import (
 	vtime "github.com/trzsz/trzsz-go/zzverif/vsched/vtime"
 )
 
+// c05AfterSessionInput: what the user types after a zmodem session, each token a read of its own.
+var c05AfterSessionInput = []string{"\x03", "x", "\x03", "\x18", "\x1b[A", "ls\r", "\x03"}
+
 var lineNoRe = regexp.MustCompile(`/[A-Za-z_]+\.go:[0-9]+`)
 
 type c19Params struct {
 	Upload  bool   `json:"upload"`
-	Helper  string `json:"helper"`  // missing | exit0 | exit1 | run0 | run1 | run3 | silent | late
-	Server  string `json:"server"`  // finish | cancel-before | cancel-after | keeps | quiet
-	CtrlCMs int    `json:"ctrlc_ms"` // < 0: none; otherwise the user presses Ctrl-C that long after the header
+	Helper  string `json:"helper"`         // missing | exit0 | exit1 | run0 | run1 | run3 | silent | late
+	Server  string `json:"server"`         // finish | cancel-before | cancel-after | keeps | quiet
+	CtrlCMs int    `json:"ctrlc_ms"`       // < 0: none; otherwise the user presses Ctrl-C that long after the header
 	Veto    string `json:"veto,omitempty"` // "cancel" | "cannot-open": the header's read also carries this (must not start a session)
-	Bound   int    `json:"bound"`
-	Shard   int    `json:"shard"`
-	NShards int    `json:"nshards"`
+	// InputFirst (used by C05): once the session is over and the remote side has been quiet, the user types
+	// before the remote side prints anything — every token as a read of its own — and all of it must arrive.
+	InputFirst bool `json:"input_first,omitempty"`
+	Bound      int  `json:"bound"`
+	Shard      int  `json:"shard"`
+	NShards    int  `json:"nshards"`
 }
 
 const zFinish = "**\x18B0800000000022d\r\x8a"
@@ -108,6 +114,7 @@ type c19Obs struct {
 	sessionStarted   bool
 	stillTransfering bool
 	remoteCancelled  bool // the remote side itself sent a cancel sequence
+	inputFirst       string
 }
 
 func c19Exec(p c19Params) vs.ExecFn {
@@ -198,11 +205,39 @@ func c19Exec(p c19Params) vs.ExecFn {
 			o.sessionStarted = helper.started > 0
 			// the remote side has now been quiet; half a second (and a bit) later the terminal must be back
 			vtime.Sleep(700 * time.Millisecond)
+			if p.InputFirst {
+				active := false
+				vs.Peek(func() {
+					if z := filter.zmodem.Load(); z != nil {
+						active = z.isTransferringFiles()
+					}
+				})
+				if active || filter.IsTransferringFiles() {
+					o.inputFirst = "session still active"
+				} else {
+					mark := len(c2s.Written)
+					want := ""
+					for _, tok := range c05AfterSessionInput {
+						keys.Write([]byte(tok))
+						want += tok
+						vs.WaitSettled(func() bool { return false }, 0)
+						vtime.Sleep(50 * time.Millisecond)
+					}
+					vs.WaitSettled(func() bool { return len(c2s.Written) >= mark+len(want) }, 100)
+					if got := string(c2s.Written[mark:]); got != want {
+						o.inputFirst = fmt.Sprintf("after the zmodem session ended (remote side silent since) the user typed %q in separate reads and the remote side received %q", want, got)
+					} else {
+						o.inputFirst = "ok"
+					}
+				}
+			}
 			s2c.Write([]byte("probe-out-1\r\n"))
 			vtime.Sleep(700 * time.Millisecond)
 			keys.Write([]byte("probe-in"))
 			s2c.Write([]byte("probe-out-2\r\n"))
-			vs.WaitSettled(func() bool { return bytes.Contains(term.Written, []byte("probe-out-2")) && bytes.Contains(c2s.Written, []byte("probe-in")) }, 300)
+			vs.WaitSettled(func() bool {
+				return bytes.Contains(term.Written, []byte("probe-out-2")) && bytes.Contains(c2s.Written, []byte("probe-in"))
+			}, 300)
 			o.term, o.c2s = term.Written, c2s.Written
 			o.remoteCancelled = bytes.Contains(s2c.Written, zmodemCancelSubSequence)
 			o.probe1 = bytes.Count(term.Written, []byte("probe-out-1"))
@@ -225,6 +260,8 @@ func c19Exec(p c19Params) vs.ExecFn {
 			violation = "deadlock"
 		case p.Veto != "" && o.helperStarts > 0:
 			violation = fmt.Sprintf("a header accompanied by %s started a session (helper launched)", p.Veto)
+		case p.InputFirst && o.inputFirst != "ok" && o.inputFirst != "session still active" && o.inputFirst != "":
+			violation = o.inputFirst
 		case o.probeIn != 1:
 			violation = fmt.Sprintf("typed input reached the remote side %d times after the remote had been quiet for 0.7 s and 1.4 s (input is still being discarded)", o.probeIn)
 		case o.probe2 != 1:
@@ -240,9 +277,16 @@ func c19Exec(p c19Params) vs.ExecFn {
 			}
 		}
 		outcome = fmt.Sprintf("helperStarts=%d probe=%d/%d/%d cancelSent=%v", o.helperStarts, o.probe1, o.probe2, o.probeIn, bytes.Contains(o.c2s, zmodemCancelSubSequence))
+		if p.InputFirst {
+			outcome += " inputFirst=" + firstWords(o.inputFirst, 3)
+		}
 		res := &vs.ExecResult{Sched: s, Outcome: outcome, Violation: violation}
 		if violation != "" {
-			res.Signature = fmt.Sprintf("c19:helper=%s:server=%s:ctrlc=%v:%s", p.Helper, p.Server, p.CtrlCMs >= 0, lineNoRe.ReplaceAllString(firstWords(violation, 9), ""))
+			pfx := "c19"
+			if p.InputFirst {
+				pfx = "c05:zmodem-history"
+			}
+			res.Signature = fmt.Sprintf(pfx+":helper=%s:server=%s:ctrlc=%v:%s", p.Helper, p.Server, p.CtrlCMs >= 0, lineNoRe.ReplaceAllString(firstWords(violation, 9), ""))
 		}
 		return res
 	}
